@@ -414,10 +414,17 @@ func (g *sgen) readBody() *body {
 		b.kind = "image.ratelimitWait"
 		src, _ := g.srcRef("", "src", false, cs)
 		if g.chance(50, "method") {
-			b.add(`local ok = manifest.head(%s):ratelimitWait(%d, "1ms", "60s")`, src, 1+g.draw(50, "lim"))
+			b.add(`local ok = manifest.head(%s):ratelimitWait(%d, "1ms", "150ms")`, src, g.rateLimitArg())
 			b.call("manifest.head", "manifest:ratelimitWait")
 		} else {
-			b.add(`local ok = image.ratelimitWait(%s, %d, "1ms", "60s")`, src, 1+g.draw(50, "lim"))
+			switch g.draw(4, "rlargs") {
+			case 0:
+				b.add(`local ok = image.ratelimitWait(%s, %d)`, src, 1+g.draw(50, "lim")) // default poll 5m / timeout 6h: never waits, the limit is below what any host announces
+			case 1:
+				b.add(`local ok = image.ratelimitWait(%s, %d, "1ms")`, src, 1+g.draw(50, "lim"))
+			default:
+				b.add(`local ok = image.ratelimitWait(%s, %d, "1ms", "150ms")`, src, g.rateLimitArg())
+			}
 			b.call("image.ratelimitWait")
 		}
 		b.add(`log("ratelimitWait " .. tostring(ok))`)
@@ -662,6 +669,16 @@ func (g *sgen) mutBody() *body {
 	return b
 }
 
+// rateLimitArg is a limit below (returns true at once) or, sometimes, above
+// (polls until the 150ms timeout, returns false) the 60 / 1000 remaining
+// requests a host with rate limit headers announces.
+func (g *sgen) rateLimitArg() int {
+	if g.draw(4, "rlbig") == 0 {
+		return 500
+	}
+	return 1 + g.draw(50, "lim")
+}
+
 // stmt draws one top-level statement.
 func (g *sgen) stmt() Stmt {
 	g.match, g.matchLabel, g.forceMatch = "", "", false
@@ -671,8 +688,18 @@ func (g *sgen) stmt() Stmt {
 	case *g.afterCfg && x >= 60:
 		b = g.followBody()
 	case x < 7:
-		b = g.errorBody()
+		if g.chance(40, "more") {
+			b = g.moreErrorBody()
+		} else {
+			b = g.errorBody()
+		}
 		protected = g.chance(40, "epcall")
+	case x >= 94:
+		if g.chance(55, "wa") {
+			b = g.wrongArgBody()
+		} else {
+			b = g.missingPlaceBody()
+		}
 	case x < 15:
 		b = g.configOnListBody()
 		protected = g.chance(50, "cpcall")
@@ -697,6 +724,20 @@ func (g *sgen) stmt() Stmt {
 		}
 	}
 	lines := b.lua
+	// an error is caught, then the statement goes on (with its mutating call)
+	if b.kind != "error" && g.chance(15, "prefix") {
+		fl := g.failingLines(b)
+		if g.chance(30, "xp") {
+			lines = append([]string{"local ok0, e0 = xpcall(function() " + fl + " end, function(e) return \"handled: \" .. es(e) end)",
+				`log("caught first " .. tostring(ok0) .. " " .. es(e0))`}, lines...)
+		} else {
+			lines = append([]string{"local ok0, e0 = pcall(function() " + fl + " end)", `log("caught first " .. tostring(ok0) .. " " .. es(e0))`}, lines...)
+		}
+	}
+	if g.chance(10, "alias") {
+		lines = aliasLines(lines)
+	}
+	coResume := false
 	if cond != "" {
 		in := make([]string, 0, len(lines)+3)
 		in = append(in, "if "+cond+" then")
@@ -705,6 +746,26 @@ func (g *sgen) stmt() Stmt {
 		}
 		in = append(in, "else", `  log("condition false")`, "end")
 		lines = in
+	}
+	switch g.draw(12, "co") {
+	case 0:
+		// inside a coroutine, with yields around the calls; errors propagate through wrap
+		in := []string{"local co = coroutine.wrap(function()", `  coroutine.yield("first")`}
+		for _, l := range lines {
+			in = append(in, "  "+l)
+		}
+		in = append(in, `  coroutine.yield("second")`, `  return "done"`, "end)", `log("co " .. tostring(co()))`, `log("co " .. tostring(co()))`, `log("co " .. tostring(co()))`)
+		lines = in
+	case 1:
+		// resume reports an error of the coroutine as a value: the statement cannot raise
+		in := []string{"local co = coroutine.create(function(a)", `  local b2 = coroutine.yield(a .. "-yielded")`}
+		for _, l := range lines {
+			in = append(in, "  "+l)
+		}
+		in = append(in, `  return "done"`, "end)", `local r1, v1 = coroutine.resume(co, "arg")`, `log("resume " .. tostring(r1) .. " " .. es(v1))`,
+			`local r2, v2 = coroutine.resume(co, "again")`, `log("resume " .. tostring(r2) .. " " .. es(v2) .. " " .. coroutine.status(co))`)
+		lines = in
+		coResume = true
 	}
 	if protected {
 		in := make([]string, 0, len(lines)+3)
@@ -715,8 +776,8 @@ func (g *sgen) stmt() Stmt {
 		in = append(in, "end)", `log("pcall " .. tostring(ok) .. " " .. es(err))`)
 		lines = in
 	}
-	st := Stmt{Kind: b.kind, Mut: b.mut, Lua: strings.Join(lines, "\n") + "\n", Safe: protected}
-	st.Raise = b.raise && !protected && cond == ""
+	st := Stmt{Kind: b.kind, Mut: b.mut, Lua: strings.Join(lines, "\n") + "\n", Safe: protected || coResume}
+	st.Raise = b.raise && !protected && cond == "" && !coResume
 	st.Args = b.args
 	seen := map[string]bool{}
 	for _, cl := range b.calls {
@@ -736,7 +797,7 @@ func Gen(t *rapid.T) Case {
 	if rapid.Bool().Draw(t, "par") {
 		c.Parallel = 1 + uniform(t, 3, "parallel")
 	}
-	c.Verbosity = []string{"info", "info", "debug"}[uniform(t, 3, "verbosity")]
+	c.Verbosity = []string{"info", "info", "debug", "trace"}[uniform(t, 4, "verbosity")]
 	c.YAMLStyle = uniform(t, 2, "yaml")
 	c.ReadOnly = uniform(t, 4, "readonly") == 0
 	c.DefTimeout = []string{"", "", "600s"}[uniform(t, 3, "deftimeout")]
@@ -746,6 +807,7 @@ func Gen(t *rapid.T) Case {
 	// world
 	opt := imggen.DefaultOptions()
 	opt.MaxDepth, opt.Foreign, opt.MaxLayers, opt.MaxEntries = 2, false, 3, 3
+	opt.Sha512 = uniform(t, 3, "sha512") == 0
 	nG := rapid.IntRange(1, 2).Draw(t, "ngraphs")
 	for i := 0; i < nG; i++ {
 		c.Graphs = append(c.Graphs, imggen.Gen(t, opt))
@@ -758,7 +820,11 @@ func Gen(t *rapid.T) Case {
 			CatalogPage:      rapid.SampledFrom([]int{0, 0, 1}).Draw(t, "catpage"),
 			HeadNoDigest:     rapid.IntRange(0, 5).Draw(t, "headnodigest") == 0,
 			ValidateManifest: rapid.IntRange(0, 3).Draw(t, "validate") == 0,
+			RateRemain:       []int{0, 0, 60, 1000}[uniform(t, 4, "rate")],
 		})
+	}
+	if uniform(t, 6, "auth") == 0 {
+		c.Hosts[1].User, c.Hosts[1].Pass = "c19user", "c19 pa$$:word"
 	}
 	gi := func(l string) int { return rapid.IntRange(0, nG-1).Draw(t, l) }
 	if concurrent {
@@ -834,7 +900,16 @@ func Gen(t *rapid.T) Case {
 				g.usable = append(g.usable, i)
 			}
 		}
+		switch uniform(t, 30, "skind") {
+		case 0:
+			s.Kind = "empty"
+		case 1, 2:
+			s.Kind = "badsyntax"
+		}
 		n := uniform(t, 7, "nstmts")
+		if s.Kind != "" {
+			n = 0
+		}
 		for k := 0; k < n; k++ {
 			g.k = k
 			s.Stmts = append(s.Stmts, g.stmt())
@@ -855,6 +930,35 @@ func Gen(t *rapid.T) Case {
 		for i := range c.Scripts {
 			c.Scripts[i].Timeout = short[i]
 		}
+	}
+	// context states: a deadline that has expired before / while the script runs,
+	// and a command context cancelled (SIGINT) at a chosen statement boundary
+	for i := range c.Scripts {
+		if uniform(t, 25, "expired") == 0 {
+			c.Scripts[i].Timeout = "1ms"
+		}
+	}
+	if uniform(t, 16, "cancel") == 0 {
+		si := uniform(t, len(c.Scripts), "cancel_s")
+		if n := len(c.Scripts[si].Stmts); n > 0 && c.Scripts[si].Kind == "" {
+			c.CancelAt = []int{si, uniform(t, n, "cancel_k")}
+		}
+	}
+	// configuration file / command line dimensions
+	c.Conf = ConfOpts{
+		LoadDockerConf: uniform(t, 4, "dockerconf") == 0,
+		Sched:          []int{0, 0, 1, 2}[uniform(t, 4, "sched")],
+		NoVersion:      uniform(t, 4, "noversion") == 0,
+		XExt:           uniform(t, 4, "xext") == 0,
+		CredExtras:     uniform(t, 4, "credextras") == 0,
+		ArgStyle:       uniform(t, 3, "argstyle"),
+		Stdin:          uniform(t, 5, "stdin") == 0,
+	}
+	if uniform(t, 4, "ua") == 0 {
+		c.Conf.UserAgent = "c19-agent/1.0 (test)"
+	}
+	if uniform(t, 4, "bloblimit") == 0 {
+		c.Conf.BlobLimit = 1 << 30
 	}
 	return c
 }
